@@ -942,6 +942,131 @@ class Inliner(object):
         return expanded + tail
 
 
+def sink_result_variable(fdef):
+    """Single-exit style with a result variable is given the early-return
+    form the rules read:
+
+        r = D                          |   r = D
+        if A: ...                      |   while ...:
+        elif B: ...; r = E             |       if C: r = E; break
+        else: r = F                    |   return r
+        return r
+
+    becomes, branch by branch, `return <value of r there>` (and `r = E;
+    break` -> `return E` when the return directly follows the loop).  Only
+    when r is a plain local assigned at the top level of the branches (or
+    right before a break), nowhere else, and never read except by the final
+    return."""
+    body = fdef.body
+    if len(body) < 2 or not isinstance(body[-1], ast.Return) or \
+            not isinstance(body[-1].value, ast.Name):
+        return fdef
+    rname = body[-1].value.id
+    tail = body[-2]
+    if not isinstance(tail, (ast.If, ast.For, ast.While)):
+        return fdef
+    stores, loads = [], []
+    for node in ast.walk(fdef):
+        if isinstance(node, ast.Name) and node.id == rname:
+            (stores if isinstance(node.ctx, ast.Store) else loads).append(
+                node)
+        if isinstance(node, (ast.FunctionDef, ast.AsyncFunctionDef,
+                             ast.Lambda)) and node is not fdef and any(
+                                 isinstance(n, ast.Name) and n.id == rname
+                                 for n in ast.walk(node)):
+            return fdef
+    if len(loads) != 1 or rname in [a.arg for a in fdef.args.args]:
+        return fdef
+    assigns = [n for n in ast.walk(fdef) if isinstance(n, ast.Assign) and
+               len(n.targets) == 1 and isinstance(n.targets[0], ast.Name)
+               and n.targets[0].id == rname]
+    if len(assigns) != len(stores):
+        return fdef         # augmented / tuple / loop-target stores
+    defaults = [st for st in body[:-2] if st in assigns]
+    if len(defaults) != 1 or not isinstance(defaults[0].value, ast.Constant):
+        return fdef
+    default = defaults[0].value
+    inner = [a for a in assigns if a is not defaults[0]]
+
+    def ret(value, at):
+        new = ast.Return(value=copy.deepcopy(value))
+        ast.copy_location(new, at)
+        for sub in ast.walk(new):
+            if not hasattr(sub, 'lineno'):
+                ast.copy_location(sub, at)
+        return new
+    claimed = []
+    if isinstance(tail, ast.If):
+        def leaves(stmt):
+            out = [stmt.body]
+            if len(stmt.orelse) == 1 and isinstance(stmt.orelse[0], ast.If):
+                out.extend(leaves(stmt.orelse[0]))
+            else:
+                out.append(stmt.orelse)
+            return out
+        blocks = leaves(tail)
+        plan = []
+        for block in blocks:
+            mine = [st for st in block if st in inner]
+            if len(mine) > 1:
+                return fdef
+            if any(isinstance(n, (ast.Return, ast.Break, ast.Continue))
+                   for st in block for n in ast.walk(st)):
+                return fdef
+            claimed.extend(mine)
+            plan.append((block, mine[0] if mine else None))
+        if len(claimed) != len(inner):
+            return fdef     # assigned deeper than the top of a branch
+        for block, asg in plan:
+            value = asg.value if asg is not None else default
+            if asg is not None and block[-1] is asg:
+                block[-1] = ret(value, asg)
+            elif asg is not None:
+                block.remove(asg)
+                block.append(ret(value, asg))
+            else:
+                at = block[-1] if block else tail
+                block.append(ret(value, at))
+        fdef.body = body[:-1]
+        return fdef
+    if tail.orelse:
+        return fdef
+
+    def rewrite(block, depth):
+        idx = 0
+        while idx < len(block):
+            st = block[idx]
+            if st in inner:
+                nxt = block[idx + 1] if idx + 1 < len(block) else None
+                if not isinstance(nxt, ast.Break) or depth != 0:
+                    return False
+                block[idx:idx + 2] = [ret(st.value, st)]
+                claimed.append(st)
+                idx += 1
+                continue
+            if isinstance(st, (ast.For, ast.While)):
+                if any(n in inner for n in ast.walk(st)):
+                    return False
+            else:
+                for field in ('body', 'orelse', 'finalbody'):
+                    sub = getattr(st, field, None)
+                    if isinstance(sub, list) and sub and \
+                            isinstance(sub[0], ast.stmt):
+                        if not rewrite(sub, depth):
+                            return False
+                for hdl in getattr(st, 'handlers', []) or []:
+                    if not rewrite(hdl.body, depth):
+                        return False
+            idx += 1
+        return True
+    backup = copy.deepcopy(tail.body)
+    if not rewrite(tail.body, 0) or len(claimed) != len(inner):
+        tail.body = backup
+        return fdef
+    body[-1] = ret(default, body[-1])
+    return fdef
+
+
 def _attr_chain(expr):
     """Root name of a pure attribute chain a.b.c, else None."""
     cur = expr
@@ -1094,7 +1219,7 @@ def inline_function(index, func, resolver):
     """Deep copy of func.raw with private helpers inlined; returns
     (new FunctionDef, [inlined callee names])."""
     inl = Inliner(index, resolver)
-    node = copy.deepcopy(func.raw)
+    node = sink_result_variable(copy.deepcopy(func.raw))
     inl.fn_stored = (_stored_names(func.raw.body) -
                      _comprehension_vars(func.raw.body)) | set(
                          a.arg for a in func.raw.args.args)
